@@ -335,6 +335,81 @@ class C11Executor(_verify.Executor):
             self._frozen = out
         return out
 
+    # -- `for x in (y for y in SRC if C)` / `for x in _helper(SRC)` where the helper returns such a filter: executed as the loop
+    #    it is -- `for y' in SRC: if not C: continue; x = y'; body` (a generator expression is lazy: same interleaving of filter
+    #    and body; a list comprehension is accepted when its filter only calls functions under a verified contract).  The loop
+    #    keeps the LoopSpec of the original `for` statement, so invariants stay indexed by the position in SRC.
+    def _filter_loop(self, s, st):
+        import ast as _ast
+        import copy
+        it = s.iter
+        subst = {}
+        comp = None
+        if isinstance(it, (_ast.GeneratorExp, _ast.ListComp)):
+            comp = it
+        elif isinstance(it, _ast.Call) and isinstance(it.func, _ast.Name) and it.func.id in self.module.functions and not it.keywords \
+                and all(isinstance(a, _ast.Name) for a in it.args) and st.lookup(it.func.id) is None:
+            callee = self.module.functions[it.func.id]
+            body = [b for b in callee.body if not (isinstance(b, _ast.Expr) and isinstance(b.value, _ast.Constant))]
+            a = callee.args
+            if len(body) == 1 and isinstance(body[0], _ast.Return) and isinstance(body[0].value, (_ast.GeneratorExp, _ast.ListComp)) \
+                    and not (a.vararg or a.kwarg or a.kwonlyargs or a.posonlyargs) and len(a.args) == len(it.args) and not callee.decorator_list:
+                comp = body[0].value
+                subst = {p.arg: arg.id for p, arg in zip(a.args, it.args)}
+        if comp is None or len(comp.generators) != 1:
+            return None
+        g = comp.generators[0]
+        if g.is_async or not isinstance(g.target, _ast.Name) or not isinstance(comp.elt, _ast.Name) or comp.elt.id != g.target.id:
+            return None
+        if isinstance(comp, _ast.ListComp):
+            for c in g.ifs:
+                for n in _ast.walk(c):
+                    if isinstance(n, _ast.Call) and not (isinstance(n.func, _ast.Name) and self.reg.get(f"{self.module.rel}::{n.func.id}") is not None):
+                        return None
+        fresh = f"__c11_item_{s.lineno}"
+        free = set()
+        for c in list(g.ifs) + [g.iter]:
+            free |= {n.id for n in _ast.walk(c) if isinstance(n, _ast.Name)}
+        free -= {g.target.id} | set(subst)
+        if subst and any(nm in st.frame.env for nm in free):
+            return None           # a name of the helper's scope is shadowed by a local of the caller
+
+        class Ren(_ast.NodeTransformer):
+            def visit_Name(self, n):
+                if n.id == g.target.id:
+                    return _ast.copy_location(_ast.Name(id=fresh, ctx=n.ctx), n)
+                if n.id in subst:
+                    return _ast.copy_location(_ast.Name(id=subst[n.id], ctx=n.ctx), n)
+                return n
+        src = Ren().visit(copy.deepcopy(g.iter))
+        conds = [Ren().visit(copy.deepcopy(c)) for c in g.ifs]
+        pre = []
+        if conds:
+            test = conds[0] if len(conds) == 1 else _ast.BoolOp(op=_ast.And(), values=conds)
+            pre.append(_ast.If(test=_ast.UnaryOp(op=_ast.Not(), operand=test), body=[_ast.Continue()], orelse=[]))
+        pre.append(_ast.Assign(targets=[copy.deepcopy(s.target)], value=_ast.Name(id=fresh, ctx=_ast.Load())))
+        new = _ast.For(target=_ast.Name(id=fresh, ctx=_ast.Store()), iter=src, body=pre + list(s.body), orelse=list(s.orelse), type_comment=None)
+        _ast.copy_location(new, s)
+        for n in pre + [new.target, src]:
+            for x in _ast.walk(n):
+                _ast.copy_location(x, s) if not hasattr(x, "lineno") else None
+        _ast.fix_missing_locations(new)
+        if not hasattr(self, "_desugared"):
+            self._desugared = {}
+        self._desugared[id(new)] = (s, new)
+        return new
+
+    def s_For(self, s, st):
+        try:
+            new = self._filter_loop(s, st)
+        except Exception:  # noqa -- not a shape this desugaring knows: the engine decides
+            new = None
+        return super().s_For(new if new is not None else s, st)
+
+    def loop_spec(self, node):
+        hit = getattr(self, "_desugared", {}).get(id(node))
+        return super().loop_spec(hit[0] if hit is not None else node)
+
     def mutated_refs(self, stmts, st):
         refs = super().mutated_refs(stmts, st)
         frozen = self._frozen_classes()
